@@ -341,6 +341,9 @@ func runCase(col *collector, c *Case, seed int64, name string, maxCopies int) {
 	if c.Siblings > 0 {
 		col.hit("state:reserved-for-deployment")
 	}
+	if c.Reload != nil {
+		col.hit("history:reload-before-target:" + c.ReloadKind)
+	}
 	if len(c.Others) > 0 {
 		col.hit("state:other-pods-hold-addresses")
 	}
